@@ -360,6 +360,29 @@ CHECKS["C12"] = (
     "bounded-exhaustive input + scripted-environment enumeration vs "
     "closed-form reference model")
 
+CHECKS["C15"] = (
+    "4/C15",
+    "Object-grammar enumeration on the real serializer: every class "
+    "exported by holopy.scattering(.scatterer/.theory) and holopy.inference "
+    "that derives from HoloPyObject is discovered by introspection (42 "
+    "classes); per constructor argument an explicit alphabet by kind "
+    "(reals incl. 1e-300/1e300/-0.0/int, complex, numpy scalars of several "
+    "widths, list/tuple/ndarray vectors, nested priors of every kind incl. "
+    "derived and ufunc ones, theories inside Lens, dicts, explicit None); "
+    "every label of every argument as a single deviation, full product for "
+    "classes with <= 3 arguments, deviation bound 2 (quick) / 3 (thorough) "
+    "for wide ones; models with ties, constraints, per-channel optics.  "
+    "Targets: file name, open stream, yaml dump/load; 1-3 cycles and all "
+    "mixed-target sequences for base objects.  Oracle: canonical "
+    "constructor-argument tree equal after load, text fix-point, library "
+    "equality, and for models names / ties / value-to-place mapping.",
+    "Trusted: the canonicalisation in the check.  'Randomly generated "
+    "arguments' of the property are replaced by explicit alphabets (no "
+    "sampling).  Result classes (HDF5) belong to C13; DDA cannot be "
+    "constructed (adda absent).",
+    "bounded-exhaustive object-grammar enumeration x save/load sequence "
+    "enumeration vs canonical-form reference")
+
 NOT_YET = {}
 
 
